@@ -127,6 +127,13 @@ theorem efficient_too_many_operands (n mn op : ℕ) (L : List (Layer (Mat R))) (
   rw [List.foldlM_cons, hlayer]
   rfl
 
+/-- the chunk-count hypothesis of `efficient_spec` in closed form: `⌈n / opt⌉` chunks, one less when the last chunk
+(`n % opt` entries, or `opt` when `opt ∣ n`) is shorter than `min` and is therefore merged into its predecessor -/
+theorem numOperands_closed_form (n mn op : ℕ) (hop : 1 ≤ op) (hn : 2 * op ≤ n) :
+    numOperands n mn op =
+      if (if n % op = 0 then op else n % op) < mn then (n + op - 1) / op - 1 else (n + op - 1) / op :=
+  numOperands_eq n mn op hop hn
+
 /-! ## linear in the input vector -/
 
 /-- additive and homogeneous: if `χ = a·ψ + b·φ` entrywise then the same holds for the results -/
